@@ -27,7 +27,7 @@ def corpus_cases(prop):
                 continue
             j = json.loads(l)
             out.append(Case([bytes.fromhex(a) for a in j["argv_hex"]], bytes.fromhex(j["stdin_hex"]),
-                            entry=j.get("entry", "main"), seg=j.get("seg"), extra=j.get("extra")))
+                            entry=j.get("entry", "main"), seg=j.get("seg"), extra=j.get("extra"), tags=j.get("tags")))
     return out
 
 
